@@ -361,6 +361,11 @@ func (c *Ctx) frameItems0(ct *Contract, names calleeNames, args []Val, st *State
 		if foreign != "" && !ownedKey(k, foreign) {
 			it.whole = true
 		}
+		for _, l := range locs {
+			if l.memAll != nil && keyHasPrefix(k, typeKey(l.memAll)) {
+				it.whole = true
+			}
+		}
 		pre, okp := c.entryState.mem[k]
 		if !okp {
 			pre = c.defName(c.entryState, "M:"+k)
